@@ -1,5 +1,5 @@
 """C10 — allows_all(A, B) true guarantees containment (DESIGN §5 C10)."""
-from .common import interval_table, set_table
+from .common import interval_table, range_level1, set_table
 
 
 def check(ctx, rep):
@@ -42,6 +42,9 @@ def check(ctx, rep):
     sizes = [(1, 1), (2, 1), (3, 1)] if not ctx.thorough else [(1, 1), (2, 1), (3, 1), (4, 1)]
     set_table(ctx, rep, prog, "allows_all", "E-SET-allows_all", 137,
               "Range::allows_all(A, B) with one alternative in B: true implies B inside union A", sizes=sizes)
+    # "A.allows_any(B) is also true": Range::allows_any is exact (overlap) on concrete interval shapes, so it is true
+    # whenever B lies inside A
+    range_level1(ctx, rep, prog, "allows_any")
 
 
 def _swapped(key):
